@@ -106,7 +106,9 @@ def _gen_opts(r: Rng, ds: dsdlgen.DsdlSet, lang: typing.Optional[str]) -> dict:
     if r.chance(1, 8) and lang in ("c",):
         o["override_varlen"] = True
     if r.chance(1, 8):
-        o["pp_prog"] = r.choice([True, "rename"])  # an external post-processor (a formatter sensitive to the file's name)
+        o["pp_prog"] = r.choice([True, "rename", "crlf"])  # an external post-processor (a formatter sensitive to the file's name / a line-ending normaliser)
+    if r.chance(1, 8) and lang in ("c", "cpp"):
+        o["extra_support"] = r.choice([True, "readonly"])
     if r.chance(1, 8):
         o["trim_blocks"] = True
     if r.chance(1, 8):
